@@ -1,0 +1,12 @@
+//go:build verif
+
+package json
+
+// ZVC33ECIDToName returns a copy of ecIDToName (verification hook, C33).
+func ZVC33ECIDToName() map[int]string {
+	out := map[int]string{}
+	for k, v := range ecIDToName {
+		out[int(k)] = v
+	}
+	return out
+}
